@@ -1,14 +1,20 @@
 (* Model of the filer paths the S3 gateway produces (C29): for every object /
-   multipart / copy / tagging / batch-delete route of weed/s3api the sequence of
-   filer-facing calls (HTTP requests to the filer's ServeMux, gRPC requests to the
-   filer service) with the exact path strings, and for every call the path the filer
-   ends up acting on:
+   multipart / copy / tagging / batch-delete / listing / bucket / POST-upload route of
+   weed/s3api the sequence of filer-facing calls (HTTP requests to the filer's ServeMux,
+   gRPC requests to the filer service) with the exact path strings, and for every call
+   the path the filer ends up acting on:
      * HTTP: net/http.ServeMux answers a non-canonical path with 301 to cleanPath(p);
        the gateway's http.Client follows it (PUT/DELETE become GET);
      * gRPC LookupDirectoryEntry / DeleteEntry / UpdateEntry(find): util.JoinPath =
        filepath.Join cleans dir + "/" + name;
      * gRPC CreateEntry / UpdateEntry(store) / ListEntries use the string as it is
        (parents of a created entry are created at the cleaned prefixes).
+   Data dependent calls (the empty-folder purge after a batch delete, the directories a
+   listing descends into) are given as candidate sets (`candidates`).
+   Trigger sets: `req_climbs` / `req_enters_uploads` (a lexical walk, `escapes`, over the
+   strings a route builds its paths from), `bad_bucket`, `req_noslash`; the first,
+   purely syntactic ones (`req_dotdot`, `req_uploads_seg`) are kept for the corollaries
+   in proof/S3PathsCompat.v.
    Executable definitions only; proofs are in proof/S3PathsProofs.v. *)
 From Coq Require Import List NArith Bool String Ascii Arith.
 From SW Require Import model.S3List.   (* split_slash, cut_slash, join_slash, no_slash *)
@@ -214,12 +220,18 @@ Inductive route :=
 | RCopy (replace : bool)
 | RCopyPart
 | RNewUpload | RPutPart | RComplete | RAbort | RListParts
-| RGetTag | RPutTag | RDelTag.
+| RGetTag | RPutTag | RDelTag
+(* ListObjects V1 (marker) / V2 (start-after) with query prefix / marker, delimiter "/" or none *)
+| RList (v2 : bool) (prefix marker : string) (delim : bool)
+| RListUploads                                   (* ListMultipartUploads *)
+| RPutBucket | RDeleteBucket | RHeadBucket
+| RPostPolicy.                                   (* browser POST upload; q_object = form field "key" *)
 
 Record req := mk_req {
   q_route : route;
   q_bucket : string;       (* mux var "bucket" *)
-  q_object : string;       (* mux var "object" (decoded request path behind the bucket) *)
+  q_object : string;       (* mux var "object" (decoded request path behind the bucket);
+                              RPostPolicy: the form field "key" as sent *)
   q_upload : string;       (* query uploadId (decoded) *)
   q_part : string;         (* the 4-digit part file name, e.g. "0001.part" *)
   q_src : string;          (* header X-Amz-Copy-Source, as sent *)
@@ -253,14 +265,16 @@ Definition batch_dir_name (b key : string) : string * string :=
 
 (* doDeleteEmptyDirectories: the directories it may try to remove for one parent
    directory: the directory itself and the chain of DirAndName parents, until the
-   parent is BucketsPath (fuel = number of segments) *)
+   parent is BucketsPath (fuel = number of segments).  Each candidate is first looked
+   up (s3a.exists(parentDir, dirName, true)) and only deleted when the lookup returns
+   a directory. *)
 Fixpoint purge_chain (fuel : nat) (dir : string) : list fcall :=
   match fuel with
   | O => []
   | S f =>
       let '(parent, name) := dir_and_name dir in
       if parent =? buckets_path then []
-      else GDelete parent name false :: purge_chain f parent
+      else GLookup parent name :: GDelete parent name false :: purge_chain f parent
   end.
 
 Definition purge_candidates (b : string) (keys : list string) : list fcall :=
@@ -268,14 +282,59 @@ Definition purge_candidates (b : string) (keys : list string) : list fcall :=
                      purge_chain (S (List.length (split_slash d))) d) keys.
 
 (* completeMultipartUpload: (dirName, entryName) of the final object *)
-Definition complete_dir_name (b key : string) : string * string :=
-  let entry := path_base key in
+Definition complete_rel_dir (key : string) : string :=
   let d := path_dir key in
   let d := if d =? "." then "" else d in
-  let d := trim_leading_slash d in
-  let d := bucket_dir b ++ "/" ++ d in
+  trim_leading_slash d.
+Definition complete_dir_name (b key : string) : string * string :=
+  let entry := path_base key in
+  let d := bucket_dir b ++ "/" ++ complete_rel_dir key in
   let d := if ends_with_slash d then strip_one_trailing_slash d else d in
   (d, entry).
+
+(* listFilerEntries: filepath.Split(prefix) = (everything up to and including the last
+   "/", the rest); the directory that is listed *)
+Definition split_dir_file (p : string) : string * string :=
+  match rcut_slash p with Some (d, n) => (d ++ "/", n) | None => ("", p) end.
+Definition list_rel_dir (prefix : string) : string := trim_leading_slash (fst (split_dir_file prefix)).
+Definition list_req_dir (b prefix : string) : string :=
+  let d := bucket_dir b ++ "/" ++ list_rel_dir prefix in
+  if ends_with_slash d then strip_one_trailing_slash d else d.
+
+(* doListFilerEntries: a marker "s1/s2/../sk" first lists dir/s1/../s(k-1), then its
+   parents up to dir, each one after the recursion into the next one returned (the
+   directories the filer returns in between are data dependent: list_candidates).
+   fuel = length of the marker *)
+Fixpoint marker_heads (fuel : nat) (dir marker : string) : list string :=
+  match fuel with
+  | O => [dir]
+  | S f =>
+      match cut_slash marker with
+      | Some (sub, rest) => (marker_heads f (dir ++ "/" ++ sub) rest ++ [dir])%list
+      | None => [dir]
+      end
+  end.
+
+(* the directories below d the listing may descend into: ListEntries(d) (one trailing
+   "/" stripped by the filer) returns the entries whose parent is literally that string *)
+Definition child_dirs (fx : fixture) (d : string) : list string :=
+  let d := if Nat.ltb 1 (String.length d) then strip_one_trailing_slash d else d in
+  flat_map (fun e => match rcut_slash (fst e) with
+                     | Some (p, n) => if (p =? d) && snd e && negb (n =? "") then [n] else []
+                     | None => []
+                     end) fx.
+Fixpoint list_desc (fuel : nat) (fx : fixture) (d : string) : list (string * string) :=
+  match fuel with
+  | O => []
+  | S f => flat_map (fun n => (d, n) :: list_desc f fx (d ++ "/" ++ n)) (child_dirs fx d)
+  end.
+(* what a listing may call besides its heads: the existence check of the bucket when
+   nothing was listed; for every directory reached below a head: its listing (recursion,
+   isDirectoryAllEmpty) and the removal of an empty folder (isDirectoryAllEmpty) *)
+Definition list_candidates (fx : fixture) (b : string) (heads : list string) : list fcall :=
+  GLookup buckets_path b ::
+  flat_map (fun h => flat_map (fun dn => [GList (fst dn ++ "/" ++ snd dn); GDelete (fst dn) (snd dn) true])
+                              (list_desc (List.length fx) fx h)) heads.
 
 (* the calls of one request, each with the bucket whose directory it is supposed to
    stay in (the destination bucket, or the bucket named by the copy source) *)
@@ -346,27 +405,34 @@ Definition calls (fx : fixture) (q : req) : list ccall :=
         | None => []
         | Some sp =>
             (within sb (http_calls MGet sp) ++
-             match pct_decode opath with
-             | None => []
-             | Some dp => within b (http_calls MPut dp)
-             end)%list
+             (* resp.StatusCode >= 400: ErrInvalidCopySource, nothing is written *)
+             (if http_get_ok fx sp then
+                match pct_decode opath with
+                | None => []
+                | Some dp => within b (http_calls MPut dp)
+                end
+              else []))%list
         end
   | RCopyPart =>
       let cp := match pct_decode (q_src q) with Some s => s | None => q_src q end in
       let '(sb, so) := src_bucket_object cp in
       if (sb =? "") then []
       else
-        match pct_decode (bucket_dir sb ++ so) with
-        | None => []
-        | Some sp =>
-            (within sb (http_calls MGet sp) ++
-             (if http_get_ok fx sp then
-                match pct_decode (uploads_dir b ++ "/" ++ q_upload q ++ "/" ++ q_part q) with
-                | None => []
-                | Some dp => within b (http_calls MPut dp)
-                end
-              else []))%list
-        end
+        (* s3a.exists(genUploadsFolder(dstBucket), uploadID, true), else NoSuchUpload *)
+        (within b [GLookup (uploads_dir b) (q_upload q)] ++
+         (if is_dir_at fx (join_path (uploads_dir b) (q_upload q)) then
+            match pct_decode (bucket_dir sb ++ so) with
+            | None => []
+            | Some sp =>
+                (within sb (http_calls MGet sp) ++
+                 (if http_get_ok fx sp then
+                    match pct_decode (uploads_dir b ++ "/" ++ q_upload q ++ "/" ++ q_part q) with
+                    | None => []
+                    | Some dp => within b (http_calls MPut dp)
+                    end
+                  else []))%list
+            end
+          else []))%list
   | RNewUpload => within b [GCreate (uploads_dir b) "UUID" true]
   | RPutPart =>
       within b (GLookup (uploads_dir b) (q_upload q) ::
@@ -399,6 +465,32 @@ Definition calls (fx : fixture) (q : req) : list ccall :=
       let '(d, n) := dir_and_name opath in
       within b (GLookup d n :: update_after_lookup fx d n)
   | RDelTag => let '(d, n) := dir_and_name opath in within b [GLookup d n]
+  | RList _ prefix marker _ =>
+      within b (map GList (marker_heads (String.length marker) (list_req_dir b prefix) marker))
+  | RListUploads => within b [GList (uploads_dir b)]
+  | RHeadBucket =>
+      (* checkBucket: getEntry(BucketsPath, bucket) = NewFullPath(dir, name).DirAndName() *)
+      let '(d, n) := dir_and_name (buckets_path ++ "/" ++ b) in within b [GLookup d n]
+  | RDeleteBucket =>
+      let '(d, n) := dir_and_name (buckets_path ++ "/" ++ b) in
+      within b (GLookup d n ::
+                (if exists_at fx (join_path d n) then [GDelete buckets_path b true] else []))
+  | RPutBucket =>
+      within b (GLookup buckets_path b ::
+                (if is_dir_at fx (join_path buckets_path b) then [] else [GCreate buckets_path b true]))
+  | RPostPolicy =>
+      (* uploadUrl = BucketsPath + "/" + bucket + urlPathEscape(key): NO "/" in between *)
+      within b (http_calls MPut (bucket_dir b ++ q_object q))
+  end.
+
+(* the data dependent calls a request may make besides `calls` *)
+Definition candidates (fx : fixture) (q : req) : list fcall :=
+  match q_route q with
+  | RBatchDelete => purge_candidates (q_bucket q) (q_keys q)
+  | RList _ prefix marker _ =>
+      list_candidates fx (q_bucket q)
+        (marker_heads (String.length marker) (list_req_dir (q_bucket q) prefix) marker)
+  | _ => []
   end.
 
 (* ---------- containment ---------- *)
@@ -418,10 +510,20 @@ Definition all_contained (fx : fixture) (q : req) : bool :=
   forallb call_contained (calls fx q) &&
   forallb (fun c => call_contained (q_bucket q, c)) (purge_candidates (q_bucket q) (q_keys q)).
 
+(* the data dependent calls (purge after a batch delete, descent of a listing) *)
+Definition candidates_contained (fx : fixture) (q : req) : bool :=
+  forallb (fun c => call_contained (q_bucket q, c)) (candidates fx q).
+
+(* the names of the entries of a fixture are ordinary names (the root has the empty name) *)
+Definition plain_seg (s : string) : bool := negb ((s =? "") || (s =? ".") || (s =? "..")).
+Definition fx_plain (fx : fixture) : bool :=
+  forallb (fun e => match rcut_slash (fst e) with Some (_, n) => (n =? "") || plain_seg n | None => true end) fx.
+
 (* object routes: every route that takes an object key as an ordinary object *)
 Definition object_route (r : route) : bool :=
   match r with
-  | RPut | RGet | RHead | RDelete | RBatchDelete | RCopy _ | RGetTag | RPutTag | RDelTag => true
+  | RPut | RGet | RHead | RDelete | RBatchDelete | RCopy _ | RGetTag | RPutTag | RDelTag
+  | RPostPolicy => true
   | _ => false
   end.
 
@@ -474,3 +576,76 @@ Definition req_dotdot (q : req) : bool :=
    a batch key *)
 Definition req_uploads_seg (q : req) : bool :=
   object_route (q_route q) && existsb (has_seg ".uploads") (obj_paths q).
+
+(* ---------- narrower triggers: a lexical walk ---------- *)
+
+(* Walk the segments of a path RELATIVE to a bucket directory with the stack of kept
+   segments (deepest first), like norm_step: "" and "." are skipped, ".." pops.  The
+   walk escapes when ".." meets the empty stack (the path climbs above the bucket
+   directory), or when a segment satisfying `forbid` is pushed onto the empty stack
+   (the path enters that child of the bucket directory). *)
+Definition skip_seg (s : string) : bool := (s =? "") || (s =? ".").
+
+Fixpoint escapes (forbid : string -> bool) (stack segs : list string) : bool :=
+  match segs with
+  | [] => false
+  | s :: r =>
+      if skip_seg s then escapes forbid stack r
+      else if s =? ".." then
+        match stack with [] => true | _ :: st => escapes forbid st r end
+      else if (match stack with [] => forbid s | _ :: _ => false end) then true
+      else escapes forbid (s :: stack) r
+  end.
+
+Definition forbid_none (s : string) : bool := false.
+Definition forbid_uploads (s : string) : bool := s =? ".uploads".
+
+(* rel climbs above the directory it is relative to *)
+Definition climbs (rel : string) : bool := escapes forbid_none [] (split_slash rel).
+(* rel climbs above it or passes through its child ".uploads" *)
+Definition enters_uploads (rel : string) : bool := escapes forbid_uploads [] (split_slash rel).
+
+(* the strings, relative to the bucket directory (the copy source: to the source bucket's
+   directory), from which a route builds its filer paths *)
+Definition rel_object (q : req) : string := norm_object (q_object q).
+Definition src_rel (q : req) : string := snd (src_bucket_object (dec1 (q_src q))).
+Definition up_rel (q : req) : string := ".uploads/" ++ q_upload q.
+Definition part_rel (q : req) : string := ".uploads/" ++ q_upload q ++ "/" ++ q_part q.
+Definition complete_rel (q : req) : string :=
+  let key := trim_leading_slash (rel_object q) in complete_rel_dir key ++ "/" ++ path_base key.
+(* the listed directory (relative, "" or ending in "/") followed by the marker chain *)
+Definition list_rel (prefix marker : string) : string := list_rel_dir prefix ++ "/" ++ marker.
+
+Definition rels (q : req) : list string :=
+  match q_route q with
+  | RPut | RGet | RHead | RDelete | RGetTag | RPutTag | RDelTag | RPostPolicy => [rel_object q]
+  | RBatchDelete => q_keys q
+  | RCopy _ => [rel_object q; dec1 (rel_object q); dec1 (src_rel q)]
+  | RCopyPart => [up_rel q; dec1 (part_rel q); dec1 (src_rel q)]
+  | RPutPart => [up_rel q; dec1 (part_rel q)]
+  | RComplete => [up_rel q; complete_rel q]
+  | RAbort | RListParts => [up_rel q]
+  | RList _ prefix marker _ => [list_rel prefix marker]
+  | RNewUpload | RListUploads | RPutBucket | RDeleteBucket | RHeadBucket => []
+  end.
+
+(* a copy route whose source names a bucket that is not a plain name *)
+Definition src_bad (q : req) : bool :=
+  match q_route q with
+  | RCopy _ | RCopyPart => negb (src_bucket q =? "") && bad_bucket (src_bucket q)
+  | _ => false
+  end.
+
+(* finding 0, narrowed: one of the route's relative strings climbs above the bucket directory *)
+Definition req_climbs (q : req) : bool := existsb climbs (rels q) || src_bad q.
+
+(* finding 1, narrowed: an object route one of whose relative strings passes through ".uploads" *)
+Definition req_enters_uploads (q : req) : bool :=
+  object_route (q_route q) && (existsb enters_uploads (rels q) || src_bad q).
+
+(* finding 3: a POST upload whose form key does not begin with "/" *)
+Definition req_noslash (q : req) : bool :=
+  match q_route q with
+  | RPostPolicy => negb (q_object q =? "") && negb (starts_with_slash (q_object q))
+  | _ => false
+  end.
